@@ -2,10 +2,10 @@ package main
 
 import (
 	"fmt"
-	"sort"
 	"go/ast"
 	"go/token"
 	"go/types"
+	"sort"
 	"strings"
 
 	"golang.org/x/tools/go/types/typeutil"
@@ -81,6 +81,7 @@ func (c *Ctx) evalCallInner(st *State, call *ast.CallExpr, spawn bool) []Val {
 		}
 		c.eval(st, call.Fun)
 		c.note("dynamic call through function value: heap havoc'd: " + types.ExprString(call.Fun))
+		st.taint = append(st.taint, "dynamic call "+types.ExprString(call.Fun))
 		c.heapHavocAll(st)
 		rs := c.havocResults(st, call, "dyn")
 		for _, r := range rs {
@@ -244,8 +245,23 @@ func (c *Ctx) dispatch(st *State, call *ast.CallExpr, fn *types.Func, recv *Val,
 		return rs
 	}
 	if !isIfaceMethod {
-		if fi := e.funcs[fn.FullName()]; fi != nil && (e.cs.Inline[fn.FullName()] || inlinable(fi.Decl)) && st.depth < 6 {
-			return c.inlineCall(st, call, fi, recv, args)
+		if fi := e.funcs[fn.FullName()]; fi != nil && st.depth < 6 {
+			if e.cs.Inline[fn.FullName()] || inlinable(fi.Decl) {
+				return c.inlineCall(st, call, fi, recv, args)
+			}
+			if inlinableBranching(fi.Decl) {
+				// attempt: execute the branching body and join its return paths; when that is not possible
+				// (a path havocs the heap, results of different shapes) everything is rolled back and the call
+				// is treated like any other call without contract
+				nObl, saved, savedAbort, savedPaths := len(c.obls), st.clone(), c.aborted, c.paths
+				rs := c.inlineCall(st, call, fi, recv, args)
+				if c.aborted == savedAbort {
+					return rs
+				}
+				c.aborted, c.paths = savedAbort, savedPaths
+				c.obls = c.obls[:nObl]
+				*st = *saved
+			}
 		}
 	}
 	if isIfaceMethod && recv != nil {
@@ -257,6 +273,7 @@ func (c *Ctx) dispatch(st *State, call *ast.CallExpr, fn *types.Func, recv *Val,
 		c.addObl(st, "nilcall", c.ordOf(call.Fun, "nil"), "(not (= (itag "+recv.T+") 0))", "method call "+types.ExprString(call.Fun)+" on nil interface at "+c.pos(call))
 	}
 	c.note("call without contract: heap havoc'd: " + fn.FullName())
+	st.taint = append(st.taint, fn.FullName())
 	c.heapHavocAll(st)
 	rs := c.havocResults(st, call, "unk")
 	for _, r := range rs {
@@ -330,6 +347,26 @@ func inlinable(fd *ast.FuncDecl) bool {
 	return ok
 }
 
+// inlinableBranching: small loop-free bodies with plain if/else (their return paths are joined).
+func inlinableBranching(fd *ast.FuncDecl) bool {
+	if fd.Body == nil || len(fd.Body.List) > 12 {
+		return false
+	}
+	ok := true
+	nIf := 0
+	ast.Inspect(fd.Body, func(n ast.Node) bool {
+		switch n.(type) {
+		case *ast.FuncLit, *ast.GoStmt, *ast.ForStmt, *ast.RangeStmt, *ast.SwitchStmt, *ast.TypeSwitchStmt,
+			*ast.SelectStmt, *ast.LabeledStmt, *ast.BranchStmt, *ast.SendStmt, *ast.DeferStmt:
+			ok = false
+		case *ast.IfStmt:
+			nIf++
+		}
+		return ok
+	})
+	return ok && nIf >= 1 && nIf <= 3
+}
+
 var calleeBoxed = map[*ast.FuncDecl]map[types.Object]bool{}
 
 // inlineCall executes the callee body in place (single path expected).
@@ -399,6 +436,10 @@ func (c *Ctx) inlineCall(st *State, call *ast.CallExpr, fi *FuncInfo, recv *Val,
 	var out []Val
 	done := 0
 	var final *State
+	var finals []*State
+	var outs [][]Val
+	base := len(st.pc)
+	entry := st.clone()
 	k := konts{}
 	finish := func(s *State, vals []Val) {
 		if len(vals) == 0 && len(resObjs) > 0 {
@@ -417,12 +458,24 @@ func (c *Ctx) inlineCall(st *State, call *ast.CallExpr, fi *FuncInfo, recv *Val,
 			done++
 			out = vals
 			final = s2
+			finals = append(finals, s2)
+			outs = append(outs, vals)
 		})
 	}
 	k.next = func(s *State) { finish(s, nil) }
 	k.ret = finish
 	c.execBlock(st, fd.Body.List, k)
 	st.depth--
+	if done > 1 && done <= 16 {
+		// a branching callee without loops: its return paths are joined (guarded facts, ite-free encoding
+		// with one fresh constant per differing result / heap key), so the caller continues on ONE path
+		if m, vals, ok := c.joinPaths(entry, base, finals, outs); ok {
+			m.depth = entry.depth
+			*st = *m
+			st.defers = savedDefers
+			return vals
+		}
+	}
 	if done != 1 {
 		c.abort("inlined call %s produced %d paths (needs a contract)", fi.Obj.FullName(), done)
 		return c.havocResults(st, call, "res")
@@ -432,6 +485,121 @@ func (c *Ctx) inlineCall(st *State, call *ast.CallExpr, fi *FuncInfo, recv *Val,
 	}
 	st.defers = savedDefers
 	return out
+}
+
+// joinPaths merges the end states of the return paths of an inlined callee. Sound: exactly one path is taken,
+// and everything a path assumed or computed is kept under that path's condition.
+func (c *Ctx) joinPaths(entry *State, base int, rs []*State, vals [][]Val) (*State, []Val, bool) {
+	for _, r := range rs {
+		if r.epoch != entry.epoch || len(r.pc) < base {
+			return nil, nil, false
+		}
+		for k2 := range r.heap {
+			if strings.HasPrefix(k2, "\x00ep:") {
+				return nil, nil, false
+			}
+		}
+	}
+	n := len(rs)
+	conds := make([]string, n)
+	m := entry.clone()
+	for i, r := range rs {
+		conds[i] = c.named(m, "jc", Val{T: and(r.pc[base:]...), S: "Bool"}).T
+	}
+	m.assume(or(conds...))
+	pick := func(prefix string, sort Sort, terms []string) string {
+		same := true
+		for _, t := range terms[1:] {
+			if t != terms[0] {
+				same = false
+			}
+		}
+		if same {
+			return terms[0]
+		}
+		nm := c.fresh(prefix, sort)
+		for i, t := range terms {
+			m.assume(implies(conds[i], "(= "+nm+" "+t+")"))
+		}
+		return nm
+	}
+	// results
+	var out []Val
+	if n > 0 {
+		for j := range vals[0] {
+			ts := make([]string, n)
+			for i := range vals {
+				if j >= len(vals[i]) || vals[i][j].S != vals[0][j].S {
+					return nil, nil, false
+				}
+				ts[i] = vals[i][j].T
+			}
+			v := vals[0][j]
+			out = append(out, Val{T: pick("jr", v.S, ts), S: v.S, GT: v.GT})
+		}
+	}
+	// heap
+	keys := map[string]bool{}
+	for _, r := range rs {
+		for k2 := range r.heap {
+			keys[k2] = true
+		}
+	}
+	for k2 := range keys {
+		as, ok := heapSorts[k2]
+		if !ok {
+			return nil, nil, false
+		}
+		ts := make([]string, n)
+		for i, r := range rs {
+			ts[i] = c.heapRead(r, k2, as)
+		}
+		m.heap[k2] = pick("H!"+mangle(k2), as, ts)
+	}
+	// ghost lets / spawn counters
+	gk := map[string]bool{}
+	for _, r := range rs {
+		for g := range r.ghost {
+			gk[g] = true
+		}
+	}
+	for g := range gk {
+		ts := make([]string, n)
+		var sort Sort
+		for i, r := range rs {
+			v, ok := r.ghost[g]
+			if !ok {
+				if strings.HasPrefix(g, "spawned_") {
+					v = Val{T: "0", S: "Int"}
+				} else if ev, ok2 := entry.ghost[g]; ok2 {
+					v = ev
+				} else {
+					return nil, nil, false
+				}
+			}
+			if sort != "" && v.S != sort {
+				return nil, nil, false
+			}
+			sort = v.S
+			ts[i] = v.T
+		}
+		m.ghost[g] = Val{T: pick("jg", sort, ts), S: sort}
+	}
+	// caller-visible boxed locals allocated before the call keep their cells; cells created inside are dropped
+	tset := map[string]bool{}
+	for _, r := range rs {
+		for _, t := range r.taint {
+			if !tset[t] {
+				tset[t] = true
+			}
+		}
+	}
+	m.taint = nil
+	for t := range tset {
+		m.taint = append(m.taint, t)
+	}
+	sort.Strings(m.taint)
+	return m, out, true
 }
 
 // inlineLit executes an immediately invoked function literal in place.
